@@ -48,7 +48,25 @@ func (fv *FnV) frameWriteCond(st *State, comp, ref, cond string, pos token.Pos) 
 		return
 	}
 	fv.bornFn()
-	goal := implies(cond, "(>= (birth "+ref+") "+fv.now0+")")
+	alts := []string{"(>= (birth " + ref + ") " + fv.now0 + ")"}
+	for spelled, exprs := range fv.k.ModAt {
+		for _, key := range fv.g.expandModKey(spelled) {
+			if key != comp {
+				continue
+			}
+			env := fv.contractEnv(fv.entry, fv.entry, nil)
+			for _, ex := range exprs {
+				if v, err := env.eval(ex); err == nil {
+					r := v.T
+					if v.S == sSlice {
+						r = "(s!ref " + v.T + ")"
+					}
+					alts = append(alts, eq(ref, r))
+				}
+			}
+		}
+	}
+	goal := implies(cond, or(alts...))
 	fv.emit(st, "F", comp+":"+fv.siteText(pos, "mapstore"), fv.frameProps(), goal,
 		"write to "+comp+" targets an object allocated by this activation (frame: modifies "+strings.Join(fv.k.Modifies, " ")+")", pos)
 }
